@@ -164,7 +164,7 @@ Definition expected_discarded : list (string * string * string * nat) :=
     (* constant burn addresses: error only logged (old and new address) *)
     ("node.Pegnetd.NullifyBurnAddress", "factom.NewFAAddress", "logged", 2);
     (* inside NullifyBurnAddress: KNOWN FINDING C10 (same call site family as the discarded result) *)
-    ("node.Pegnetd.NullifyBurnAddress", "pegnet.Pegnet.SelectBalances", "logged", 1);
+    ("node.Pegnetd.NullifyBurnAddress", "pegnet.Pegnet.selectBalances", "logged", 1);
     ("node.Pegnetd.NullifyBurnAddress", "pegnet.Pegnet.SubFromBalance", "logged", 1);
     (* err_s of GradeS is looked at only in the branch height >= V20HeightActivation *)
     ("node.Pegnetd.SyncBlock", "node.Pegnetd.GradeS", "unchecked", 1);
